@@ -54,6 +54,9 @@ def generate(rng, tier):
             srv(s.A32, m, "M1-two-place-change")
         for m in two_place_flips(rng, s.A32, 6):
             srv(m, s.M1, "A-two-place-change")
+        # the all-zero proof and other constant proofs (also what a lazy client sends)
+        for m in (bytes(20), b"\xff" * 20, bytes(19) + b"\x01"):
+            srv(s.A32, m, "M1-constant")
         # a public key that is congruent to A modulo N but has different bytes (A + N fits in 32 bytes for A < 2^256 - N)
         if s.A + N < (1 << 256):
             srv((s.A + N).to_bytes(32, "little"), s.M1, "A-plus-N-same-residue")
@@ -95,6 +98,43 @@ def generate(rng, tier):
             cs.append(Case("cli.verify %s %s | %s" % (base, m2p.hex(), a.hex()), "M2-bit-flip", "err %s %s ~32" % (s.M2.hex(), m2p.hex())))
         for m2p in two_place_flips(rng, s.M2):
             cs.append(Case("cli.verify %s %s | %s" % (base, m2p.hex(), a.hex()), "M2-two-place-change", "err %s %s ~32" % (s.M2.hex(), m2p.hex())))
+    # proofs computed over OTHER ENCODINGS of the right numbers are not the proof: sessions whose A (small private key) or B has high-order
+    # zero bytes, with M1 hashed over the zero-stripped / big-endian / reversed forms of A, B, K, the salt
+    for a_small in ([1, 2, 3, 5, 40] if tier == "quick" else list(range(1, 60))):
+        us, ps = cred(rng), cred(rng)
+        salt, b, chal = rbytes(rng, 32), rbytes(rng, 32), rbytes(rng, 16)
+        a = a_small.to_bytes(32, "little")
+        s = pyref.Session(us, ps, salt, b, a)
+        if s.A % N == 0 or s.B % N == 0: continue
+        v32 = le32(s.v)
+        strip = lambda x: x.rstrip(b"\0")
+        alts = [pyref.M1(s.U, salt, strip(s.A32), s.B32, s.K), pyref.M1(s.U, salt, strip(s.A32), strip(s.B32), s.K), pyref.M1(s.U, salt, s.A32[::-1], s.B32[::-1], s.K),
+                pyref.M1(s.U, salt, s.A32, s.B32, s.K[::-1]), pyref.M1(s.U, salt[::-1], s.A32, s.B32, s.K), pyref.M1(s.U.lower(), salt, s.A32, s.B32, s.K),
+                pyref.M1(s.U, strip(salt), s.A32, s.B32, s.K)]
+        cs.append(Case(server_line(us, v32, salt, s.A32, s.M1, b, chal), "small-A-baseline-accept", server_expect(s.U, s.v, salt, s.A32, s.M1, b, chal)))
+        for m in alts:
+            if m != s.M1:
+                cs.append(Case(server_line(us, v32, salt, s.A32, m, b, chal), "M1-over-another-encoding", server_expect(s.U, s.v, salt, s.A32, m, b, chal)))
+    # sessions whose B has a zero top byte need a search over b (1 in 256)
+    found = 0
+    for _ in range(3000):
+        if found >= (2 if tier == "quick" else 20): break
+        us, ps = cred(rng), cred(rng)
+        salt, b, a, chal = rbytes(rng, 32), rbytes(rng, 32), rbytes(rng, 32), rbytes(rng, 16)
+        s = pyref.Session(us, ps, salt, b, a)
+        if s.B32[31] != 0 or s.A % N == 0 or s.B % N == 0: continue
+        found += 1
+        m = pyref.M1(s.U, salt, s.A32, s.B32.rstrip(b"\0"), s.K)
+        cs.append(Case(server_line(us, le32(s.v), salt, s.A32, m, b, chal), "M1-over-another-encoding", server_expect(s.U, s.v, salt, s.A32, m, b, chal)))
+    # credentials that LOOK like the right ones: characters whose Unicode upper-casing is ASCII (long s, dotless i, sharp s, ligatures, Kelvin
+    # sign), through every constructor on the client side (tens digit of the last argument)
+    for us, ps in (("bob", "password1"), ("fisher", "kiss"), ("alice", "strasse")):
+        salt, b, a, chal = rbytes(rng, 32), rbytes(rng, 32), rbytes(rng, 32), rbytes(rng, 16)
+        for ctor in range(5):
+            for uc, pc in ((us, ps.replace("s", "\u017f")), (us.replace("i", "\u0131"), ps), (us, ps.replace("ss", "\u00df")), (us.replace("fi", "\ufb01"), ps), (us, ps.replace("k", "\u212a"))):
+                if (uc, pc) != (us, ps):
+                    cs.append(Case(login_line(us, ps, uc, pc, 10 * ctor, salt, b, a, chal), "unicode-lookalike-credentials", "fail credentials ~0"))
+            cs.append(Case(login_line(us, ps, us.upper(), ps.upper(), 10 * ctor + 1, salt, b, a, chal), "client-constructor-%d-accepts" % ctor, None))
     return cs
 
 def nontrivial(case, out):
